@@ -76,11 +76,16 @@ def gen_layout(rng, keys: list[pathlib.PurePosixPath]) -> dict:
         while True:
             depth = rng.randint(0, 4)
             dirs = [(next_name(rng) if rng.random() < 0.5 else rng.choice(["sub", "frag", "a"])) for _ in range(depth)]
-            name = next_name(rng) + k.suffix
+            # a visual file may be the entry .aird or an .airdfragment, a semantic one the main file or a fragment: both suffixes of a kind
+            # follow the same rules (links FROM visual files are untyped)
+            suffix = k.suffix
+            if rng.random() < 0.5:
+                suffix = {".aird": ".airdfragment", ".capella": ".capellafragment"}.get(suffix, suffix)
+            name = next_name(rng) + suffix
             if same_name:
                 dirs, name = shared.setdefault(k.suffix, (dirs, name))
                 if pathlib.PurePosixPath(k.parts[0], *dirs, name) in used:
-                    dirs, name = dirs, next_name(rng) + k.suffix
+                    dirs, name = dirs, next_name(rng) + suffix
             p = pathlib.PurePosixPath(k.parts[0], *dirs, name)
             if p not in used and not any(str(u).startswith(str(p) + "/") or str(p).startswith(str(u) + "/") for u in used):
                 used.add(p)
